@@ -113,6 +113,15 @@ CLAIMS = {
         ref='5.C20'),
 }
 
+EXTRA = {
+    'C01': ' Helper tables: is_all_chars/is_full/is_range/is_atomic/match_char_set/RE::is_empty denote their specification (logical equivalence), inter/union flatten both operands in order, char/char_set/range build the Range term of their bounds.',
+    'C04': ' Helper tables: FastSet (membership formula, exact effect of insert/remove/reset, iterator), BasePartition/Partition accessors and new (segment[i] = i, headers), SplitterList::has_active_items, SplitterSet::new.',
+    'C07': ' Complement keys are built only in ReManager::new and ReManager::make.',
+    'C11': ' Helper tables: class_ids/picks/ranges start at position 0 of this partition; interval(i) is list[i].',
+    'C14': ' Helper tables: Automaton::state/states, State accessors and delegations to its own partition, StateMapping::is_class_rep, StateInConstruction::new/add_transition, CompactTable accessors.',
+    'C15': ' right_mul_is_exact is total: no panic on any pair of ranges (the defect fixed in 2d0c002).',
+}
+
 NA_DEFAULT = 'checker not built yet (construction in progress; see DESIGN.md section 7 for the build order)'
 NA = {}
 
@@ -123,7 +132,13 @@ def main():
     checks = []
     for pid in ids:
         if pid in PROPERTIES and pid in CLAIMS:
-            c = CLAIMS[pid]
+            c = dict(CLAIMS[pid])
+            import re
+            txt = re.sub(r" The check also runs the rule modules of the mechanisms the statement rests on \([^)]*\), so a defect there is reported under this property as well\.", '', c['text'])
+            deps = [m.upper() for m in PROPERTIES[pid][1:]]
+            if deps:
+                txt += ' The check also runs the rule modules (and helper tables) of the mechanisms its rules take for granted, transitively: %s; a defect there is reported under this property as well.' % ', '.join(deps)
+            c['text'] = txt + EXTRA.get(pid, '')
             checks.append({
                 'property_id': pid,
                 'quick_cmd': './check %s --tier quick' % pid,
